@@ -1636,7 +1636,8 @@ pub fn gen(a: &Args) {
 /// that checks it and shows what the reference semantics predicts
 pub fn replay(path: &str, sites: Option<&str>) {
     let m: Module = serde_json::from_str(&std::fs::read_to_string(path).unwrap()).unwrap();
-    let sites: Vec<(String, String)> = match sites {
+    let env_sites = std::env::var("C06_SITES").ok();
+    let sites: Vec<(String, String)> = match sites.or(env_sites.as_deref()) {
         Some(p) => serde_json::from_str(&std::fs::read_to_string(p).unwrap()).unwrap(),
         None => vec![],
     };
